@@ -19,6 +19,8 @@ pub struct Opts {
     pub ascii_enabled_only: bool,
 }
 
+use datamatrix::verif_hooks as vh;
+
 fn note(h: &mut BTreeMap<String, usize>, k: &str) {
     *h.entry(k.to_string()).or_insert(0) += 1;
 }
@@ -39,6 +41,33 @@ fn emit_case(out: &mut dyn Write, o: &Opts, c: &Case, hist: &mut BTreeMap<String
         note(hist, "outcome_err");
     } else {
         note(hist, "outcome_ok");
+        // coverage of the Lean theorem mixed_roundtrip (DM/Props/C01.lean): no prefix codewords
+        // (macro / FNC1 / ECI) and a plan without EDIFACT and without a latch to a non-ASCII mode
+        // scheduled for the last four characters
+        let shaped = c.fnc1 || c.eci.is_some() || (c.macros && vh::macro_prefix(&c.data, true, false).0.len() > 0);
+        let mut late = false;
+        let mut edi = false;
+        let mut single = true;
+        let mut first: Option<char> = None;
+        for e in oc.plan.split(',') {
+            if e == "-" || e.is_empty() { continue; }
+            let m = e.chars().last().unwrap();
+            let at: usize = e[..e.len() - 1].parse().unwrap_or(0);
+            if m == 'E' { edi = true; }
+            if m != 'A' && at > 0 && at <= 4 { late = true; }
+            match first { None => first = Some(m), Some(f) => if f != m { single = false; } }
+        }
+        if shaped {
+            note(hist, "roundtrip_theorem_not_applicable_prefix");
+        } else if !edi && !late {
+            note(hist, "roundtrip_theorem_covers_plan");
+        } else if single {
+            note(hist, "roundtrip_theorem_covers_plan_single_mode");
+        } else if edi {
+            note(hist, "roundtrip_theorem_excludes_plan_edifact_mixed");
+        } else {
+            note(hist, "roundtrip_theorem_excludes_plan_late_latch");
+        }
     }
     if o.roundtrip {
         if let Some(dm) = &oc.dm {
